@@ -85,6 +85,7 @@ class Sched:
         self.watch_codes: set = set()
         self.frames: List[tuple] = []
         self.on_wake: Optional[Callable[[VThread, Optional[str]], None]] = None
+        self.on_frame: Optional[Callable[[str, str, str], None]] = None
 
     # ---- baton ------------------------------------------------------------
     def _switch_to(self, vt: VThread) -> None:
@@ -148,6 +149,8 @@ class Sched:
         if code in self.watch_codes:
             me = self.current
             self.frames.append(("enter", me.name, code.co_name))
+            if self.on_frame is not None:
+                self.on_frame("enter", me.name, code.co_name)
 
             def local(fr, ev, a, _code=code, _me=me):
                 if ev == "line" and _code in self.trace_codes:
